@@ -641,6 +641,68 @@ pub fn xml_string_attr_faults(part: &str, data: &[u8], caps: &Caps, ch: &mut Cho
     v
 }
 
+const INJECT: [(&str, &[&str]); 12] = [
+    ("table:table-cell", &["table:number-columns-repeated=\"4294967295\"", "table:number-columns-repeated=\"100000000\"", "table:number-columns-repeated=\"-1\"", "office:value-type=\"string\"", "office:value=\"1e999\"", "office:boolean-value=\"maybe\""]),
+    ("table:covered-table-cell", &["table:number-columns-repeated=\"100000000\""]),
+    ("table:table-row", &["table:number-rows-repeated=\"4294967295\"", "table:number-rows-repeated=\"50000000\"", "table:number-rows-repeated=\"x\""]),
+    ("text:s", &["text:c=\"4294967295\"", "text:c=\"200000000\""]),
+    ("table:table", &["table:name=\"\"", "table:style-name=\"nope\""]),
+    ("c", &["t=\"s\"", "t=\"bogus\"", "s=\"4294967295\"", "r=\"XFD1048576\"", "r=\"A4294967295\"", "t=\"e\"", "t=\"b\"", "t=\"d\""]),
+    ("row", &["r=\"4294967295\"", "r=\"0\"", "r=\"1048577\""]),
+    ("f", &["t=\"shared\" si=\"4294967295\" ref=\"A1:XFD1048576\"", "t=\"shared\" si=\"0\"", "t=\"shared\" ref=\"B2:A1\" si=\"1\"", "t=\"shared\""]),
+    ("sheet", &["state=\"bogus\"", "r:id=\"rId999\""]),
+    ("table", &["headerRowCount=\"4294967295\"", "totalsRowCount=\"7\"", "insertRow=\"1\"", "ref=\"B2:A1\"", "ref=\"A1:XFD1048576\""]),
+    ("mergeCell", &["ref=\"A1:XFD1048576\"", "ref=\"B2:A1\""]),
+    ("dimension", &["ref=\"A1:XFD1048576\"", "ref=\"B2:A1\""]),
+];
+
+/// Attributes the fixtures do not carry (repeat counts on non-empty cells, shared-formula
+/// attributes, types, references): injected as the *first* attribute of an element, so that a
+/// field no fixture hosts is still driven to its extremes.
+pub fn xml_attr_inject(part: &str, data: &[u8], caps: &Caps, ch: &mut Chooser) -> Vec<StoredFault> {
+    let mut v = Vec::new();
+    let mut seen: std::collections::HashMap<&str, usize> = std::collections::HashMap::new();
+    let n = data.len();
+    let mut i = 0;
+    while i + 1 < n {
+        if data[i] != b'<' || data[i + 1] == b'/' || data[i + 1] == b'?' || data[i + 1] == b'!' {
+            i += 1;
+            continue;
+        }
+        let mut j = i + 1;
+        while j < n && !data[j].is_ascii_whitespace() && data[j] != b'>' && data[j] != b'/' {
+            j += 1;
+        }
+        let name = &data[i + 1..j];
+        // local name match for the OOXML elements, qualified for ODF
+        let local = match name.iter().rposition(|c| *c == b':') {
+            Some(p) => &name[p + 1..],
+            None => name,
+        };
+        for (el, attrs) in INJECT.iter() {
+            let m = if el.contains(':') { name == el.as_bytes() } else { local == el.as_bytes() };
+            if !m {
+                continue;
+            }
+            let c = seen.entry(el).or_insert(0);
+            // spread over the document: the first occurrences and a few later ones
+            *c += 1;
+            let pick = *c <= caps.tokens_per_key + 1 || (*c % 17 == 0 && *c / 17 <= caps.tokens_per_key);
+            if !pick {
+                continue;
+            }
+            for a in attrs.iter() {
+                let pack = if ch.chance(1, 2) { Pack::Deflated } else { Pack::Stored };
+                let mut bytes = vec![b' '];
+                bytes.extend_from_slice(a.as_bytes());
+                v.push(part_fault(part, pack, Edit::Insert { off: j, bytes }, format!("xml:attr-inject {} <{}> #{} gets {}", part, el, c, a)));
+            }
+        }
+        i = j;
+    }
+    v
+}
+
 /// Closing tags whose removal leaves the parser looking for them until end of input.
 pub fn xml_tag_faults(part: &str, data: &[u8], caps: &Caps) -> Vec<StoredFault> {
     let mut v = Vec::new();
@@ -922,6 +984,38 @@ pub fn record_faults(label: &str, s: &[u8], biff: bool, caps: &Caps, ch: &mut Ch
     v
 }
 
+/// A formula whose token stream nests as deeply as its 16-bit lengths allow (PtgMemFunc inside
+/// PtgMemFunc …): a parser that recurses per level needs stack in proportion to the input.
+pub fn xlsb_formula_nesting(part: &str, s: &[u8]) -> Vec<StoredFault> {
+    let mut v = Vec::new();
+    for r in xlsb_records(s) {
+        // BrtFmlaNum: cell (8 bytes) + value (8) + flags (2) + cce (4) + rgce
+        if r.typ != 0x0009 || r.len < 22 || r.off + r.hdr + r.len > s.len() {
+            continue;
+        }
+        let body = &s[r.off + r.hdr..r.off + r.hdr + r.len];
+        for depth in [64usize, 2048, 21845] {
+            let total = depth * 3;
+            let mut data = body[..18].to_vec();
+            data.extend_from_slice(&(total as u32).to_le_bytes());
+            for k in 0..depth {
+                let rest = total - 3 * (k + 1);
+                data.push(0x29);
+                data.extend_from_slice(&(rest as u16).to_le_bytes());
+            }
+            data.extend_from_slice(&0u32.to_le_bytes()); // cb of rgcb
+            let mut rec = vec![0x09u8];
+            rec.extend_from_slice(&varint(data.len(), 4));
+            rec.extend_from_slice(&data);
+            let layer = Layer::ZipPart { part: part.to_string(), pack: Pack::Deflated };
+            v.push(StoredFault { layer: layer.clone(), edit: Some(Edit::Insert { off: r.off, bytes: rec }), why: format!("xlsb:formula-nesting {} formula record at {} replaced by {} nested PtgMemFunc tokens", part, r.off, depth) });
+            v.push(StoredFault { layer, edit: Some(Edit::Delete { off: r.off, len: r.hdr + r.len }), why: "+".into() });
+        }
+        break;
+    }
+    v
+}
+
 // ------------------------------------------------------------------------------------------
 // everything for one fixture
 // ------------------------------------------------------------------------------------------
@@ -1007,6 +1101,7 @@ pub fn sites(fx: &Fixture, parts: &mut Parts, tier: Tier) -> Vec<SiteGroup> {
             if is_xml_part(n) {
                 push(None, xml_faults(n, &data, &caps, &mut ch), &mut all);
                 push(None, xml_string_attr_faults(n, &data, &caps, &mut ch), &mut all);
+                push(None, xml_attr_inject(n, &data, &caps, &mut ch), &mut all);
                 push(None, xml_tag_faults(n, &data, &caps), &mut all);
                 push(None, part_truncations(n, &data, &caps, &mut ch), &mut all);
                 push(None, part_flips(n, &data, caps.flips / 2, &mut ch), &mut all);
@@ -1014,6 +1109,7 @@ pub fn sites(fx: &Fixture, parts: &mut Parts, tier: Tier) -> Vec<SiteGroup> {
                 let nn = n.clone();
                 let mk = move |e: Edit, why: String| StoredFault { layer: Layer::ZipPart { part: nn.clone(), pack: if why.len() % 2 == 0 { Pack::Stored } else { Pack::Deflated } }, edit: Some(e), why };
                 push(None, record_faults(n, &data, false, &caps, &mut ch, &mk), &mut all);
+                push(None, xlsb_formula_nesting(n, &data), &mut all);
                 push(None, part_truncations(n, &data, &caps, &mut ch), &mut all);
                 push(None, part_flips(n, &data, caps.flips / 2, &mut ch), &mut all);
             } else if n.ends_with("vbaProject.bin") {
